@@ -6,22 +6,24 @@ behind `cooler cload hiclib`.  Property C05.
 Input: four equal-length integer columns `chrms1, cuts1, chrms2, cuts2` (chromosome ids = positions
 in the chromsizes table, zero-based cut positions), documented to be sorted by `(chrms1, cuts1)`.
 
-The model is of the code **as it is now**:
+The model is of the code **as repaired** (fixes D29, D31, D30 of `known_findings.json`):
 
 * `_index_chroms`: maximal runs of `chrms1` (`rlencode`), `ValueError` when an id heads two runs;
 * `aggregate(chrom)`: the `while hi < chrom_hi` loop.  Its state `(lo, datasets[lo:chrom_hi])` is the
   pair `(lo, rem)` here; one turn takes the tentative last record `rem[min(chunksize, len) - 1]`,
   looks up the END of the bin that contains it (a search over the ABSOLUTE starts of the whole table,
-  `KeyError` when the absolute position is negative; the lookup `bins["end"][bin_id]` is by row LABEL:
-  `binEndL` models an arbitrarily labelled frame, `binEnd` the default labels `0 … n-1`), moves `hi` to
-  `bisect_left(cuts1, bin_end, lo, chrom_hi)` (= `lo +` the number of remaining records with
-  `cut < bin_end`, the column being sorted), falls back to `chrom_hi` when that is `lo`, then bins the
-  chunk: `IndexError` when a second chromosome id is outside `[-(n+1), n]` (numpy indexing of the
-  `n+1`-entry tables `chrom_abspos`, `chrom_binoffset`; negative ids wrap around), `ValueError` when
-  `abspos1 > abspos2` for some record, else `groupby(bin1_id, bin2_id).count()`;
-* nothing validates positions: a position outside its chromosome is binned by the absolute search
-  (variable width) or by `offset + floor(cut / binsize)` (fixed width) wherever that lands; records of
-  a first chromosome id that is not in the table are never visited.
+  then the POSITIONAL lookup `bins["end"].values[bin_id]`; `bin_id = -1`, for a negative absolute
+  position, is numpy's last element), moves `hi` to `bisect_left(cuts1, bin_end, lo, chrom_hi)` (= `lo +`
+  the number of remaining records with `cut < bin_end`, the column being sorted), falls back to
+  `chrom_hi` when that is `lo`, then bins the chunk: `BadInputError` when a first cut is outside its
+  chromosome; records whose second chromosome id is not in `0 … n-1` are dropped; `BadInputError` when
+  a second cut of a kept record is outside its chromosome; `ValueError` when `abspos1 > abspos2` for a
+  kept record; else `groupby(bin1_id, bin2_id).count()`;
+* records of a first chromosome id that is not in the table are never visited (dropped).
+
+The definitions `…Legacy…` at the end are the same loader BEFORE the three fixes (no validation of cuts,
+second ids used as numpy indices of the `n+1`-entry tables, bin end looked up by row LABEL); the theorems
+`C05.hiclibLegacy_…` show what they did.
 
 Conventions: `chrom_abspos[c]` = total length of chromosomes `< c` (`chromAbs`); `chrom_binoffset[c]`
 = number of bins on chromosomes `< c` (`chromOff`; every chromosome of the table has a bin);
@@ -84,41 +86,25 @@ def hbin (bins : BinTable) (bs : Option Nat) (k : Nat) (pos : Int) : Int :=
   | some b => assignFixed (chromOff bins k) b pos
   | none => absBin bins k pos
 
-/-- `bins["end"][bin_id]` for the bin found for cut `pos` of chromosome `cid`: a label lookup, so
-`bin_id = -1` is a `KeyError` -/
+/-- `bins["end"].values[bin_id]` for the bin found for cut `pos` of chromosome `cid`: positional, and
+`bin_id = -1` (a negative absolute position) is the last row, as numpy indexes -/
 def binEnd (bins : BinTable) (cid : Nat) (pos : Int) : Except Err Int :=
   let id := absBin bins cid pos
-  if id < 0 then .error .key
-  else match bins[id.toNat]? with
-    | some b => .ok (b.stop : Int)
-    | none => .error .key
-
-/-- pandas' default row labels `0 … n-1` (what `parse_bins` hands to `cooler cload hiclib`) -/
-def rangeLabels (bins : BinTable) : List Int := (List.range bins.length).map Int.ofNat
-
-/-- `bins["end"][bin_id]` as the code stands, for a bin-table frame whose rows carry the integer LABELS
-`labels`: the lookup is by label, not by position — no row with that label is a `KeyError`, several rows
-give a Series and the comparison inside `bisect_left` raises `ValueError`.  With the default labels this
-is `binEnd` (`C05.binEndL_range`); any other labelling reads the end of a different bin. -/
-def binEndL (bins : BinTable) (labels : List Int) (cid : Nat) (pos : Int) : Except Err Int :=
-  let id := absBin bins cid pos
-  match (labels.zip bins).filter fun lb => decide (lb.1 = id) with
-  | [] => .error .key
-  | [lb] => .ok (lb.2.stop : Int)
-  | _ => .error .value
+  match (if id < 0 then bins.getLast? else bins[id.toNat]?) with
+  | some b => .ok (b.stop : Int)
+  | none => .error .index
 
 /-! ### one chunk -/
 
-/-- the two table indices of every record (`chrom_abspos[h5pairs[C][lo:hi]]`) -/
-def resolve (n : Nat) : List HRec → Except Err (List (HRec × Nat × Nat))
-  | [] => .ok []
-  | r :: rest =>
-    match npIdx n r.c1, npIdx n r.c2 with
-    | .ok k1, .ok k2 =>
-      (match resolve n rest with
-       | .ok l => .ok ((r, k1, k2) :: l)
-       | .error e => .error e)
-    | _, _ => .error .index
+/-- a cut outside chromosome `k`: `cut < 0` or `cut >= chromsizes[k]` -/
+def cutOutside (bins : BinTable) (k : Nat) (p : Int) : Bool :=
+  decide (p < 0) || decide ((chromLen bins k : Int) ≤ p)
+
+/-- the second side is on a chromosome of the table -/
+def listed2 (n : Nat) (r : HRec) : Bool := decide (0 ≤ r.c2) && decide (r.c2 < (n : Int))
+
+/-- a record with the table indices of its two chromosomes -/
+def withIdx (r : HRec) : HRec × Nat × Nat := (r, r.c1.toNat, r.c2.toNat)
 
 def isLowerAbs (bins : BinTable) (x : HRec × Nat × Nat) : Bool :=
   decide ((chromAbs bins x.2.1 : Int) + x.1.p1 > (chromAbs bins x.2.2 : Int) + x.1.p2)
@@ -126,14 +112,16 @@ def isLowerAbs (bins : BinTable) (x : HRec × Nat × Nat) : Bool :=
 def keyH (bins : BinTable) (bs : Option Nat) (x : HRec × Nat × Nat) : Key × Int :=
   ((hbin bins bs x.2.1 x.1.p1, hbin bins bs x.2.2 x.1.p2), 0)
 
-/-- the body of the loop after `hi` is fixed: absolute positions, lower-triangle test, bin ids,
-`groupby(["bin1_id","bin2_id"]).count()` -/
+/-- the body of the loop after `hi` is fixed (every record of the chunk has `chrms1 = cid`, a table index):
+first cuts validated, records with an unlisted second side dropped, second cuts validated,
+lower-triangle test, bin ids, `groupby(["bin1_id","bin2_id"]).count()` -/
 def procChunk (bins : BinTable) (n : Nat) (bs : Option Nat) (rs : List HRec) : Except Err (List Cell) :=
-  match resolve n rs with
-  | .error e => .error e
-  | .ok xs =>
-    if xs.any (isLowerAbs bins) then .error .value
-    else .ok (groupCells (xs.map (keyH bins bs)))
+  if rs.any (fun r => cutOutside bins r.c1.toNat r.p1) then .error .badInput
+  else
+    let kept := rs.filter (listed2 n)
+    if kept.any (fun r => cutOutside bins r.c2.toNat r.p2) then .error .badInput
+    else if (kept.map withIdx).any (isLowerAbs bins) then .error .value
+    else .ok (groupCells ((kept.map withIdx).map (keyH bins bs)))
 
 /-! ### the chunk loop -/
 
@@ -170,14 +158,14 @@ def chunkBounds (binEndOf : Int → Except Err Int) (cs lo : Nat) (rem : List HR
   | .error e => .error e
   | .ok l => .ok (l.map (·.1))
 
-/-- `aggregate(chrom)`; `be cid pos` = the bin-end lookup for cut `pos` of chromosome `cid` -/
-def aggregate (be : Nat → Int → Except Err Int) (bins : BinTable) (n : Nat) (bs : Option Nat) (cs : Nat)
+/-- `aggregate(chrom)`; `be cid pos` = the bin-end lookup for cut `pos` of chromosome `cid`, `proc` = the
+loop body -/
+def aggregate (be : Nat → Int → Except Err Int) (proc : List HRec → Except Err (List Cell)) (cs : Nat)
     (recs : List HRec) (part : List (Int × Nat × Nat)) (cid : Nat) :
     Except Err (List ((Nat × Nat) × List Cell)) :=
   match partGet part (cid : Int) with
   | none => .ok []
-  | some (lo, hi) =>
-    aggLoop (be cid) (procChunk bins n bs) cs (hi - lo) lo ((recs.drop lo).take (hi - lo))
+  | some (lo, hi) => aggLoop (be cid) proc cs (hi - lo) lo ((recs.drop lo).take (hi - lo))
 
 /-- `for chrom in contigs: for df in f(chrom): yield df` collected; the first error wins -/
 def streamOver {α : Type} (f : Nat → Except Err (List α)) : List Nat → Except Err (List α)
@@ -192,22 +180,16 @@ def streamOver {α : Type} (f : Nat → Except Err (List α)) : List Nat → Exc
 
 /-- `list(HDF5Aggregator(h5, chromsizes, bins, chunksize))` with the `(lo, hi)` of every chunk;
 `n` = number of chromosomes of the table -/
-def hiclibChunksWith (be : Nat → Int → Except Err Int) (bins : BinTable) (n cs : Nat) (recs : List HRec) :
-    Except Err (List ((Nat × Nat) × List Cell)) :=
+def hiclibChunksWith (be : Nat → Int → Except Err Int) (proc : List HRec → Except Err (List Cell))
+    (n cs : Nat) (recs : List HRec) : Except Err (List ((Nat × Nat) × List Cell)) :=
   if cs = 0 ∧ recs ≠ [] then .error .value
   else match indexChroms recs with
     | .error e => .error e
-    | .ok part => streamOver (aggregate be bins n (getBinsize bins) cs recs part) (List.range n)
+    | .ok part => streamOver (aggregate be proc cs recs part) (List.range n)
 
-/-- the bin table with pandas' default row labels -/
 def hiclibChunks (bins : BinTable) (n cs : Nat) (recs : List HRec) :
     Except Err (List ((Nat × Nat) × List Cell)) :=
-  hiclibChunksWith (binEnd bins) bins n cs recs
-
-/-- the bin table presented with the row labels `labels` (same content) -/
-def hiclibChunksL (bins : BinTable) (labels : List Int) (n cs : Nat) (recs : List HRec) :
-    Except Err (List ((Nat × Nat) × List Cell)) :=
-  hiclibChunksWith (binEndL bins labels) bins n cs recs
+  hiclibChunksWith (binEnd bins) (procChunk bins n (getBinsize bins)) n cs recs
 
 def hiclibStream (bins : BinTable) (n cs : Nat) (recs : List HRec) : Except Err (List (List Cell)) :=
   match hiclibChunks bins n cs recs with
@@ -296,5 +278,55 @@ def outside (bins : BinTable) (n : Nat) (recs : List HRec) : Bool :=
 /-- some record has a side on an id that is not in the table -/
 def unlisted (n : Nat) (recs : List HRec) : Bool :=
   recs.any fun r => (cidOf n r.c1).isNone || (cidOf n r.c2).isNone
+
+/-! ### the loader before the fixes D29, D31, D30 (kept for the theorems `C05.hiclibLegacy_…`) -/
+
+/-- pandas' default row labels `0 … n-1` -/
+def rangeLabels (bins : BinTable) : List Int := (List.range bins.length).map Int.ofNat
+
+/-- `bins["end"][bin_id]` before fix D31, for a frame whose rows carry the integer LABELS `labels`: a
+lookup by label — no row with that label is a `KeyError`, several rows give a Series and the comparison
+inside `bisect_left` raises `ValueError` -/
+def binEndLegacyL (bins : BinTable) (labels : List Int) (cid : Nat) (pos : Int) : Except Err Int :=
+  let id := absBin bins cid pos
+  match (labels.zip bins).filter fun lb => decide (lb.1 = id) with
+  | [] => .error .key
+  | [lb] => .ok (lb.2.stop : Int)
+  | _ => .error .value
+
+/-- before fix D30: the two table indices of every record (`chrom_abspos[h5pairs[C][lo:hi]]`, numpy
+indexing of `n+1`-entry tables) -/
+def resolveLegacy (n : Nat) : List HRec → Except Err (List (HRec × Nat × Nat))
+  | [] => .ok []
+  | r :: rest =>
+    match npIdx n r.c1, npIdx n r.c2 with
+    | .ok k1, .ok k2 =>
+      (match resolveLegacy n rest with
+       | .ok l => .ok ((r, k1, k2) :: l)
+       | .error e => .error e)
+    | _, _ => .error .index
+
+/-- the loop body before the fixes D29 and D30: no cut is validated, no record dropped -/
+def procChunkLegacy (bins : BinTable) (n : Nat) (bs : Option Nat) (rs : List HRec) : Except Err (List Cell) :=
+  match resolveLegacy n rs with
+  | .error e => .error e
+  | .ok xs =>
+    if xs.any (isLowerAbs bins) then .error .value
+    else .ok (groupCells (xs.map (keyH bins bs)))
+
+/-- the loader before the three fixes, the bin table presented with the row labels `labels` -/
+def hiclibChunksLegacyL (bins : BinTable) (labels : List Int) (n cs : Nat) (recs : List HRec) :
+    Except Err (List ((Nat × Nat) × List Cell)) :=
+  hiclibChunksWith (binEndLegacyL bins labels) (procChunkLegacy bins n (getBinsize bins)) n cs recs
+
+def hiclibStreamLegacyL (bins : BinTable) (labels : List Int) (n cs : Nat) (recs : List HRec) :
+    Except Err (List (List Cell)) :=
+  match hiclibChunksLegacyL bins labels n cs recs with
+  | .error e => .error e
+  | .ok l => .ok (l.map (·.2))
+
+/-- … with pandas' default row labels (what the command line always passed) -/
+def hiclibStreamLegacy (bins : BinTable) (n cs : Nat) (recs : List HRec) : Except Err (List (List Cell)) :=
+  hiclibStreamLegacyL bins (rangeLabels bins) n cs recs
 
 end Cooler.Hiclib
